@@ -57,7 +57,12 @@ class C02(Prop):
             "repeated Pass entries, unlogged directories, logged-but-missing files, four path styles, XML entries without file name, plain files "
             "that look like data directories, per-line CSV all/some/none (CRLF or LF, 4 footer shapes, 0..3 decimals), unreadable binaries "
             "(CSV fallback of load), bit-pattern values (NaN payloads, infinities, -0.0) or count values (exact rationals for counts/second); "
-            "96 targeted small batches (all 16 metadata subsets x sizes 1/2) + the minimal inputs of the two repaired defects; "
+            "outside the theorems' hypotheses, compared mechanism-vs-pewlib only (counted as hypothesis_excluded): scan records whose "
+            "SpectrumOffset/ByteCount leave the instrument layout (beyond the profile: clip; below the header: negative index, wrap or IndexError; "
+            "misaligned, permuted, ByteCount 0/other, profile shorter/longer than the scans, one file a scan short: np.stack raises, an MSTS_XAddition "
+            "index outside the mass table: KeyError), per-line CSVs of unequal length (0 rows, 1 row: "
+            "NumPy broadcast, other: ValueError), a data directory without digit in its name (directory scan raises); "
+            "96 targeted small batches (all 16 metadata subsets x sizes 1/2) + the minimal inputs of the two repaired defects + 17 off-hypothesis batches; "
             "non-trivial = reaches a named size/order/log/metadata/CSV boundary class; distinct by canonical case hash")
     trusted = [
         "xml.etree.ElementTree, np.genfromtxt (field splitting, name validation with deletechars='', correctly rounded decimal->float64), "
@@ -69,9 +74,17 @@ class C02(Prop):
         "Python's list.sort/sorted are stable sorts (modelled by List.mergeSort); str.rfind, str.isdigit on ASCII names",
     ]
     assumptions = [
-        "data-file names contain an ASCII digit, no separator and no comma, and carry pairwise distinct numbers (ties are listing-order dependent and not generated)",
+        "data-file names are ASCII without separator and comma, and those containing digits carry pairwise distinct numbers (ties are listing-order "
+        "dependent and not generated); a data directory without any digit makes the directory scan raise (modelled, generated)",
         "result texts are at most 5 characters and never merely start with 'Pass' (the U4 column of the CSV reader truncates)",
-        "CSV fields are plain decimals; element names are distinct; every data file of a batch carries the same mass table and the same number of scans",
+        "CSV fields are plain decimals; element names are distinct; every data file of a batch carries the same mass table; the first CSV column is "
+        "'Time [Sec]' (other header layouts are not modelled)",
+        "the specification of the binary import is compared only when every data file has the instrument layout (Lean `layoutB`, theorem "
+        "`layoutB_sound`), that of the CSV import only when all per-line CSVs have the same number (>= 2) of rows (Lean `csvShapeB`); otherwise "
+        "only the mechanism model is compared with pewlib",
+        "binary-vs-CSV agreement: demanded of pewlib's two real imports (verdict = Lean `agree` with `agreeSlack`, computed by the driver on the "
+        "imported float64 values) exactly when the exact values of the batch satisfy Lean `agree` with `printSlack` (theorem `agree_transfer`; "
+        "float64 division and decimal->binary conversion correctly rounded)",
         "exception classes are not compared (raised vs returned only)",
         "scantime is compared to within 0.5e-4 of the exact mean interval (the code rounds to 4 places) and, for the CSV import, only when no "
         "line's CSV is missing (DESIGN 5.2 boundary decision; counted as feature 'scantime-not-compared:blank-line')",
@@ -155,6 +168,8 @@ class C02(Prop):
             rows = [{"index": i + 1, "precursor": m["pre"], "product": m["pro"]} for i, m in enumerate(masses)]
             if rng.random() < 0.3:
                 rng.shuffle(rows)
+            if pick("badindex", rng.random() < 0.03):  # an index outside the mass table: KeyError in mass_info_datafile
+                rows.insert(rng.randint(0, len(rows)), {"index": rng.choice([0, k + 1, k + 7]), "precursor": 999, "product": 999})
             xadd = {"scan_type": "MS_MS" if msms else "SingleQuad", "rows": rows}
 
         names = self.gen_names(rng, n + rng.choice([0, 0, 1, 2]))
@@ -187,7 +202,7 @@ class C02(Prop):
             if rng.random() < 0.6:
                 on_disk.append(nm)
         missing_logged = None
-        if rng.random() < 0.08 and n >= 2:  # a logged, passed file that is not on disk: the log methods must be rejected
+        if pick("missing", rng.random() < 0.08) and n >= 2:  # a logged, passed file that is not on disk: the log methods must be rejected
             missing_logged = rng.choice(acquired)
             on_disk.remove(missing_logged)
         has_xml = pick("has_xml", rng.random() < 0.7)
@@ -214,7 +229,7 @@ class C02(Prop):
         hdr = 68
         bc = 28 * k
         decimals = rng.choice([2, 2, 2, 1, 3, 0])
-        csv_mode = rng.choice(["all", "all", "some", "none"])
+        csv_mode = pick("csv_mode", rng.choice(["all", "all", "some", "none"]))
         eol = rng.choice(["\r", "\r", ""])
         colnames = [f"{m['name']}{m['pre']} -> {m['pro']}" if msms else f"{m['name']}{m['pre']}" for m in masses]
         files = []
@@ -242,6 +257,29 @@ class C02(Prop):
             files.append(f)
         if bad_binary and files:
             rng.choice(files)["binary"] = False
+        odd = pick("odd", rng.choice([None] * 30 + ["offsets", "offsets", "profile", "csvrows", "csvrows", "scancount"]))
+        if odd == "offsets":  # scan records outside the instrument layout (clip / negative index / misaligned)
+            for f in (files if pick("odd_all", rng.random() < 0.4) else [rng.choice(files)]):
+                self.odd_offsets(rng, f, k, pick("odd_kind", None))
+        elif odd == "profile":  # profile with fewer / more records than there are scans
+            f = rng.choice(files)
+            if rng.random() < 0.5:
+                f["vals"] = f["vals"][: rng.randint(0, R - 1)]
+            else:
+                f["vals"] = f["vals"] + self.gen_values(rng, mode, rng.randint(1, 2), k)
+        elif odd == "scancount" and len(files) >= 2:  # one data file with a scan less than the others: np.stack raises
+            f = rng.choice(files)
+            f["scans"], f["vals"] = f["scans"][:-1], f["vals"][:-1]
+            if f["csv"] is not None and rng.random() < 0.5:
+                f["csv"]["rows"] = f["csv"]["rows"][:-1]
+        elif odd == "csvrows":  # per-line exports of unequal length
+            with_csv = [f for f in files if f["csv"] is not None]
+            if with_csv:
+                n_rows = pick("odd_rows", rng.choice([0, 0, 1, 1, R - 1, R + 1]))
+                targets = with_csv if (n_rows == 0 and rng.random() < 0.5) else [rng.choice(with_csv)]
+                for f in targets:
+                    rows = f["csv"]["rows"]
+                    f["csv"]["rows"] = (rows + [rows[-1]])[:n_rows]
         # ---- listing (iterdir order is controlled by the harness)
         listing = [{"name": f["name"], "dir": True} for f in files]
         if has_xml or has_acq:
@@ -258,6 +296,10 @@ class C02(Prop):
             if all(e["name"] != nm for e in listing) and all(digits(nm) != digits(f["name"]) for f in files) \
                     and nm not in referenced:
                 listing.append({"name": nm, "dir": False})
+        if pick("nodigit", rng.random() < 0.05):  # a data directory without digit: the directory scan raises ValueError
+            nm = rng.choice(["abc.d", "blank.D", "Method.d"])
+            if all(e["name"] != nm for e in listing):
+                listing.append({"name": nm, "dir": True})
         rng.shuffle(listing)
         nm_methods = pick("methods", None) or rng.choice([["batch_xml", "batch_csv"], ["batch_xml", "batch_csv"], ["batch_csv", "batch_xml"],
                                  ["batch_xml", "batch_csv", "acq_method_xml", "alphabetical"], ["acq_method_xml", "alphabetical"],
@@ -269,6 +311,61 @@ class C02(Prop):
                 "files": files, "methods": nm_methods, "use_acq": rng.random() < 0.7, "cps": rng.random() < 0.5,
                 "scan_start": rng.choice([208, 208, 92, 160, 333]), "seed": rng.getrandbits(32)}
 
+    @staticmethod
+    def odd_offsets(rng, f, k, kind=None):
+        """perturb the scan records of one data file so that the clip / negative-index / floor paths of the index map are taken"""
+        R = len(f["scans"])
+        bc = 28 * k
+        kind = kind or rng.choice(["beyond", "negative", "far-negative", "below-header", "misaligned", "permuted", "bytecount", "bytecount0", "mixed"])
+        for r, s in enumerate(f["scans"]):
+            kd = rng.choice(["beyond", "negative", "below-header", "misaligned", "normal", "normal"]) if kind == "mixed" else kind
+            if kd == "beyond" and (r == R - 1 or rng.random() < 0.5):
+                s["off"] = 68 + (R + rng.randint(0, 3)) * bc
+            elif kd == "negative" and (r == 0 or rng.random() < 0.5):
+                s["off"] = max(0, 68 - rng.randint(1, R) * bc)          # (off-68)//bc = -q: wraps from the end when -q*k+j >= -R*k
+            elif kd == "far-negative":
+                if r == 0:
+                    s["off"], s["bc"] = 0, 1                           # (0-68)//1 = -68: below -R*k for the generated sizes -> IndexError
+            elif kd == "below-header" and (r == 0 or rng.random() < 0.4):
+                s["off"] = rng.choice([0, 40, 67])
+            elif kd == "misaligned":
+                s["off"] = s["off"] + rng.randint(1, bc - 1)
+            elif kd == "bytecount":
+                s["bc"] = rng.choice([28, 1, 2 * bc, bc + 1, 1000])
+            elif kd == "bytecount0":
+                if r == R - 1:
+                    s["bc"] = 0
+        if kind == "permuted" and R >= 2:
+            offs = [s["off"] for s in f["scans"]]
+            i, j = rng.sample(range(R), 2)
+            offs[i], offs[j] = offs[j], offs[i]
+            for s, o in zip(f["scans"], offs):
+                s["off"] = o
+
+    def odd_cases(self):
+        import random
+        i = 0
+        for kind in ["beyond", "negative", "far-negative", "below-header", "misaligned", "permuted", "bytecount", "bytecount0"]:
+            rng = random.Random(f"C02-odd-{i}")
+            i += 1
+            yield self.build(rng, n=2, k=1 + i % 3, R=3, mode="counts", odd="offsets", odd_kind=kind, odd_all=True, has_xml=True,
+                             dirty=False, missing=False, csv_mode="all", methods=["batch_xml"], nodigit=False)
+        for rows in (0, 1, 2, 4):
+            rng = random.Random(f"C02-odd-{i}")
+            i += 1
+            yield self.build(rng, n=2, k=2, R=3, mode="counts", odd="csvrows", odd_rows=rows, has_xml=True, dirty=False,
+                             missing=False, csv_mode="all", methods=["batch_xml"], nodigit=False)
+        for methods, has_xml in ((["alphabetical"], False), (["batch_xml", "alphabetical"], False), (["alphabetical", "batch_xml"], True)):
+            rng = random.Random(f"C02-odd-{i}")
+            i += 1
+            yield self.build(rng, n=2, k=1, R=2, mode="counts", odd=None, has_xml=has_xml, missing=False, methods=methods, nodigit=True)
+        rng = random.Random(f"C02-odd-{i}")
+        yield self.build(rng, n=2, k=2, R=3, mode="counts", odd="scancount", has_xml=True, dirty=False, missing=False, csv_mode="all",
+                         methods=["batch_xml"], nodigit=False)
+        rng = random.Random(f"C02-odd-{i + 1}")
+        yield self.build(rng, n=2, k=2, R=2, mode="counts", odd=None, has_xadd=True, badindex=True, has_xml=True, dirty=False, missing=False,
+                         csv_mode="all", methods=["batch_xml"], nodigit=False)
+
     def targeted(self, tier):
         import itertools
         import random
@@ -279,6 +376,7 @@ class C02(Prop):
         yield self.fixed_offset_case(2)
         yield self.other_result_case()
         yield self.crossing_case()
+        yield from self.odd_cases()
         # every subset of the optional metadata files x smallest sizes (1 and 2 lines / masses, 2 scans), MS and MS/MS
         i = 0
         for has_xml, has_csv, has_acq, has_xadd in itertools.product([False, True], repeat=4):
@@ -528,26 +626,41 @@ class C02(Prop):
             ld = rep["load"][side]
             d["load"] = self.canon_image(ld, (qtok if (cps or self._is_csv_load(rep, side)) else int))
             sides[side] = d
-        # binary-vs-CSV agreement to the printed precision (only demanded where the specification's own values agree)
+        # hypotheses of the pixel theorems, decided by the driver (Lean `layoutB`, `csvShapeB`): outside them the
+        # specification does not describe the batch and only the mechanism model is compared
+        hyp_layout, hyp_csv = rep["hyp"]["layout"], rep["hyp"]["csv_shape"]
+        # binary-vs-CSV agreement to the printed precision: demanded where the exact values of the batch satisfy the
+        # hypothesis (Lean `agree … printSlack`); the verdict on pewlib's two imports is Lean's `agree … agreeSlack`
         agree = rep["agree"]
-        if agree["spec"] is True:
-            impl["agree"] = self.impl_agree(on, impl["csv"], case)
+        if agree["spec"] is True and hyp_layout and hyp_csv:
+            impl["agree"] = self.lean_agree(ctx, on, impl["csv"], agree["present"], case["decimals"])
+            sides["model"]["agree"] = agree["model"]
+            sides["spec"]["agree"] = agree["spec"]
         else:
-            impl["agree"] = agree["spec"]
-        sides["model"]["agree"] = agree["model"]
-        sides["spec"]["agree"] = agree["spec"]
+            impl["agree"] = sides["model"]["agree"] = sides["spec"]["agree"] = None
 
         missing_csv = any(f["csv"] is None for f in case["files"])
         feats = self.features(case, rep, impl)
+        if not hyp_layout:
+            feats.add("off-layout:" + self.layout_class(case))
+        if not hyp_csv:
+            feats.add("csv:unequal-rows")
 
         def ok(side):
             s = sides[side]
             good = core.canon(impl["collect"]) == core.canon(s["collect"]) and impl["agree"] == s["agree"]
+            skip = set()
+            if side == "spec":
+                if not hyp_layout:
+                    skip |= {"binary", "cps", "load"}
+                if not hyp_csv:
+                    skip |= {"csv", "load"}
             for key in ("binary", "cps", "csv", "load"):
-                good = good and self.same_image(impl[key], s[key])
+                if key not in skip:
+                    good = good and self.same_image(impl[key], s[key])
             for key, part in (("binary", "binary"), ("cps", "cps"), ("csv", "csv"), ("load", "load")):
                 r = rep[part][side]
-                if r is None or "raises" in r or st.get(key) is None:
+                if key in skip or r is None or "raises" in r or st.get(key) is None:
                     continue
                 if (key == "csv" or (key == "load" and self._is_csv_load(rep, side))) and missing_csv:
                     continue  # DESIGN 5.2: blanked lines and the mean interval — not compared
@@ -556,7 +669,33 @@ class C02(Prop):
 
         if missing_csv and impl["csv"] is not None and "raises" not in impl["csv"]:
             feats.add("scantime-not-compared:blank-line")
-        return outcome(impl, sides["model"], sides["spec"], spec_ok=ok("spec"), model_ok=ok("model"), features=feats)
+        return outcome(impl, sides["model"], sides["spec"], spec_ok=ok("spec"), model_ok=ok("model"),
+                       hyp=bool(hyp_layout and hyp_csv), features=feats)
+
+    @staticmethod
+    def layout_class(case):
+        k = case["k"]
+        for f in case["files"]:
+            R, D = len(f["scans"]), len(f["vals"])
+            if R != len(case["files"][0]["scans"]):
+                return "scan-count"
+            if D != R:
+                return "profile-length"
+            for r, s in enumerate(f["scans"]):
+                if s["bc"] == 0:
+                    return "bytecount0"
+                q = (s["off"] - 68) // s["bc"]
+                if q < 0:
+                    return "negative-wrap" if q * k >= -D * k else "negative-indexerror"
+                if q * k + k - 1 > D * k - 1:
+                    return "clip"
+            if any(s["bc"] != 28 * k for s in f["scans"]):
+                return "bytecount"
+            if any((s["off"] - 68) % s["bc"] for s in f["scans"]):
+                return "misaligned"
+            if [s["off"] for s in f["scans"]] != [68 + r * 28 * k for r in range(R)]:
+                return "permuted"
+        return "xaddition-index"
 
     @staticmethod
     def _is_csv_load(rep, side):
@@ -564,24 +703,16 @@ class C02(Prop):
         return b is not None and "raises" in b
 
     @staticmethod
-    def impl_agree(on, csv, case):
-        if on is None or csv is None or "raises" in on or "raises" in csv:
+    def lean_agree(ctx, on, csv, present, decimals):
+        """verdict of the Lean `agree` (driver op c02.agree) on pewlib's counts-per-second binary import and its CSV import;
+        the float64 values travel as exact rationals, a non-finite value as null"""
+        if on is None or csv is None or "raises" in on or "raises" in csv or present is None:
             return None
-        tol = Fraction(1, 2 * 10 ** case["decimals"])
-        present = {f["name"]: f["csv"] is not None for f in case["files"]}
-        # lines are in the same (collected) order in both images; blank lines are recognised by all-zero times
-        good = True
-        for line_b, line_c, tc in zip(on["img"], csv["img"], csv["times"]):
-            if all(core.untok(t) == 0.0 for t in tc):
-                continue
-            for cb, cc in zip(line_b, line_c):
-                for vb, vc in zip(cb, cc):
-                    x, y = core.untok(vb), core.untok(vc)
-                    if not (math.isfinite(x) and math.isfinite(y)):
-                        return False
-                    if abs(Fraction(x) - Fraction(y)) > tol + abs(Fraction(x)) * Fraction(1, 2 ** 48):
-                        good = False
-        return good
+
+        def exact(img):
+            return [[[core.orat(core.untok(t)) if math.isfinite(core.untok(t)) else None for t in col] for col in line] for line in img]
+
+        return ctx.driver.call("c02.agree", bin=exact(on["img"]), csv=exact(csv["img"]), present=present, decimals=decimals)["agree"]
 
     def features(self, case, rep, impl):
         feats = set()
@@ -634,9 +765,12 @@ class C02(Prop):
             feats.add("load:csv-fallback")
         if rep["acq_eq_log"] is True:
             feats.add("acq==log")
+        if isinstance(sp.get("alphabetical"), dict) and any(e["dir"] and e["name"].lower().endswith(".d") and digits(e["name"]) < 0
+                                                            for e in case["listing"]):
+            feats.add("scan-raises:no-digit")
         # descriptors alone (sizes >= 3, clean log, every order equal, all metadata) do not make a case non-trivial
         boundary = {f for f in feats if f in ("lines1", "lines2", "k1", "k2", "scans2") or "!=" in f or f.startswith(("log:", "csv:", "load:", "method-"))
-                    or f in ("binary-unreadable", "binary-csv-agreement", "acq==log", "msms", "counts-per-second")
+                    or f in ("binary-unreadable", "binary-csv-agreement", "acq==log", "msms", "counts-per-second", "scan-raises:no-digit")
                     or (f.startswith("meta:") and f != "meta:XCAD")}
         return feats if boundary else set()
 
